@@ -216,6 +216,24 @@ impl Prop for C16 {
         }
       }
     }
+    // compound patterns NESTED in a tuple pattern (tuple in tuple, three levels, a literal inside the inner tuple, an array
+    // pattern as one position of a multi-argument function arm or of a matched tuple)
+    {
+      let mut calls = Vec::new();
+      for (a, b, c) in [(1u64, 2u64, 3u64), (0, 2, 3), (4, 0, 9), (0, 0, 0)] {
+        calls.push(json!({"src": format!("r := (({}u64, {}u64), {}u64)?\n  | ((0, b), c) => 500u64 + b * 10u64 + c\n  | ((a, b), c) => a * 100u64 + b * 10u64 + c\n  | * => 999u64.", a, b, c), "expect": if a == 0 { 500 + b * 10 + c } else { a * 100 + b * 10 + c }, "args": [a, b, c]}));
+        calls.push(json!({"src": format!("r := ({}u64, ({}u64, ({}u64, 4u64)))?\n  | (a, (b, (c, d))) => a * 1000u64 + b * 100u64 + c * 10u64 + d\n  | * => 999u64.", a, b, c), "expect": a * 1000 + b * 100 + c * 10 + 4, "args": [a, b, c]}));
+        calls.push(json!({"src": format!("r := ([{}u64 {}u64 {}u64], {}u64)?\n  | ([h | t], 0) => h + 700u64\n  | ([h | t], k) => h + k\n  | * => 999u64.", a + 1, b + 1, c + 1, a), "expect": if a == 0 { a + 1 + 700 } else { a + 1 + a }, "args": [a, b, c]}));
+      }
+      out.push(Case { id: "match;nested;tuple".into(), cell: "match;nested".into(), input: json!({"mode": "arms", "def": J::Null, "calls": calls, "as_match": true, "has_wild": true}) });
+      let mut calls = Vec::new();
+      for (ci, (v, n)) in [(vec![5u64, 6], 0u64), (vec![5, 6], 2), (vec![9], 0), (vec![7, 1, 1], 3)].into_iter().enumerate() {
+        let lit = format!("[{}]", v.iter().map(|x| format!("{}u64", x)).collect::<Vec<_>>().join(" "));
+        calls.push(json!({"src": format!("nf({}, {}u64)", lit, n), "expect": if n == 0 { v[0] } else { v[0] + n }, "args": [v[0], n]}));
+        calls.push(json!({"src": format!("nf(nv{}, nn{})", ci, ci), "expect": if n == 0 { v[0] } else { v[0] + n }, "args": [v[0], n], "prelude": format!("nv{} := {}\nnn{} := {}u64", ci, lit, ci, n)}));
+      }
+      out.push(Case { id: "function;nested;array-in-tuple".into(), cell: "function;nested".into(), input: json!({"mode": "arms", "def": "nf(xs<[u64]>, n<u64>) => <u64>\n  | ([x …], 0u64) => x\n  | ([x …], n) => x + n\n  | * => 999u64.", "calls": calls, "as_match": false, "has_wild": true}) });
+    }
     // enum variants with payload: exhaustive without wildcard, every arm order
     for (i, order) in permutations(&[":red(v) => 100u64 + v", ":green(v) => 200u64 + v", ":blue => 300u64"]).into_iter().enumerate() {
       let mut calls = Vec::new();
